@@ -406,7 +406,8 @@ Proof.
       nia.
   - (* ensure_loop *) simpl.
     pose proof (tab_ensure_loop_rect items t HR) as H1.
-    destruct (tab_ensure_loop items t) as [[items1 t1] st]. simpl in *. auto.
+    destruct (tab_ensure_loop items t) as [[items1 t1] st]. simpl in *.
+    destruct st; simpl; auto. destruct (tab_look items1 t1); simpl; auto.
   - (* erase *) simpl.
     destruct (t_loop t); simpl.
     + apply rect_set_simple; simpl; auto.
@@ -620,10 +621,10 @@ Proof.
     destruct (at_check len n); simpl; auto.
     destruct (tab_loop items t) as [[[i tags] vals]|]; simpl; auto; discriminate.
   - unfold tab_ensure_loop.
-    destruct (t_loop t); [simpl; auto|].
+    destruct (t_loop t) eqn:ETL; [destruct (tab_look items t); simpl; auto; discriminate|].
     destruct (t_pos t) as [|p0 pr]; [simpl; auto|].
     destruct (ensure_go items (p0 :: pr) 0 [] [] []) as [[[[items' tags] vals] np]|]; simpl; auto.
-    discriminate.
+    match goal with |- context [tab_look ?a ?b] => destruct (tab_look a b) end; simpl; discriminate.
   - destruct (t_loop t); simpl; discriminate.
   - destruct (_ || _); simpl; auto.
     destruct (_ <? 0)%Z; simpl; auto.
